@@ -1792,8 +1792,10 @@ def pattern_methods(rng):
             "narrow-def-then-increment-in-loop": [N, k0, ("while", lc, [("assign", "x1", ("bin", "add", "I", ("var", "x1"), 127, "lit8")), inc], "top"), rx1],
             "narrow-in-one-branch-wide-in-other": [("if", c1, [N], [W_]), rx1],
             "narrow-def-used-in-arith": [N, ("return", ("bin", "mul", "I", ("var", "x1"), ("var", "p1"), "3reg"))],
-            "unary-of-narrow-neg": [("assign", "x1", ("un", "neg-int", ("un", cast, ("var", "p0")))), ("return", ("bin", "add", "I", ("var", "x1"), ("var", "p1"), "3reg"))],
-            "unary-of-narrow-not": [("assign", "x1", ("un", "not-int", ("un", cast, ("var", "p0")))), ("return", ("bin", "add", "I", ("var", "x1"), ("var", "p1"), "3reg"))],
+            "unary-of-narrow-neg": [("assign", "x1", ("un", "neg-int", ("un", cast, ("var", "p0")))),
+                                    ("return", ("bin", "xor", "I", ("bin", "add", "I", ("var", "x1"), ("var", "p1"), "3reg"), ("var", "x1"), "3reg"))],
+            "unary-of-narrow-not": [("assign", "x1", ("un", "not-int", ("un", cast, ("var", "p0")))),
+                                    ("return", ("bin", "xor", "I", ("bin", "add", "I", ("var", "x1"), ("var", "p1"), "3reg"), ("var", "x1"), "3reg"))],
         }
         mixed = ("wide-def-then-narrow-def-in-branch", "narrow-def-then-wide-def-in-branch", "narrow-in-one-branch-wide-in-other")
         for name, body in tp.items():
